@@ -9,7 +9,7 @@ NAMES_PLAIN = ["a", "b", "c", "d", "ab", "A", "_", "_a", "a1", "x"]
 NAMES_RESERVED = ["and", "or", "not", "in", "true", "false", "null", "nil", "none", "contains", "undefined", "missing", "True", "None", "length", "count"]
 NAMES_DIGITS = ["0", "1", "2", "01", "10", "-1", "+1", " 1", "1_0", "１", "1e0", "0x1", "12345678901234567890", "1\n", "0\n", "\n1", "1 ", "1\r", "-7\n", "1\t", "00", "\u00b2", "\u2460", "\u2082\u2083", "\u0663", "\u00bd"]
 NAMES_PUNCT = ["", "~", "/", "~1", "~0", "a/b", "m~n", "#", "#a", "#0", "-", "a-b", "$", "@", "*", ".", "..", "[", "]", "a b", " ", "?", ",", ":", "(", "|", "&", "^"]
-NAMES_QUOTE = ["'", '"', "\\", "a\\", "\\'", '\\"', "a'b", 'a"b', "\\\\", "\\n", "\\u0041", "\\uD83D", "\\uD83D\\uDE00", "x\\udc00", "\\ud800\\n", "\\x41", "\\U0001F600", "\\/"]
+NAMES_QUOTE = ["'", '"', "\\", "a\\", "\\'", '\\"', "a'b", 'a"b', "\\\\", "\\n", "\\u0041", "\\uD83D", "\\uD83D\\uDE00", "x\\udc00", "\\ud800\\n", "\\x41", "\\U0001F600", "\\/", "\\u{41}", "\\u{1F600}", "\\N{BULLET}", "\\8", "\\400"]
 NAMES_CTRL = ["\n", "\t", "\r", "\b", "\f", "\u0000", "\u001f", "\u007f", "a\nb"]
 NAMES_FORMAT = ["%", "%%", "%d", "%s", "100%", "%(a)s", "%%%", "{}", "{0}", "{a}", "{{", "}}", "\\1", "\\g<0>", "${a}", "$1", "%5B", "%27", "&amp;"]
 NAMES_UNI = ["e\u0301", "\u212b", "\u00c5", "A\u030a", "\ufb01", "fi", "\u00e9", "\u263a", "\u65e5\u672c", "\U0001f600", "a\U0001f600", "\u00e9\u00e9", "\u0661", "\ud7ff", "\uffff", "\ue000"]
@@ -252,7 +252,7 @@ class FilterGen:
         self.names = names
         self.max_depth = max_depth
         self.ext = ext
-        self.strings = strings or ["a", "b", "ab", "v1", "xaby", ""]
+        self.strings = strings or ["a", "b", "ab", "v1", "xaby", "", "\\u{41}", "\\uD83D", "a\\", "\\n", "%s", "{0}"]
         self.nest = nest
         self.witnesses = []
 
